@@ -269,6 +269,19 @@ def rule2(ctx, rep):
                 okp = source in srcs and f'{FSM}.waiting_on_{ev}' in srcs and conj
                 det = f'loop condition {norm(lp.test)}'
             r.check(okp, f'{p.qname}:condition', where(p), det, f'{p.qname} must poll while "{source} non-empty and waiting_on_{ev}()": {det}')
+            # the condition is re-read on every iteration: no local of the loop test is a snapshot taken before the loop
+            # (added after seeded change C12-3: `que = dawgie.pl.schedule.que` before the loop; organize/build rebind the
+            # module attribute, so the poller watches a list nobody drains)
+            r.instance()
+            raw = prog.func(f'{FSM}.{poll}')
+            stale = _stale_locals(prog, raw)
+            r.check(
+                not stale,
+                f'{p.qname}:live-condition',
+                where(raw, stale[0][0] if stale else None),
+                'every name in the polling condition is re-evaluated per iteration',
+                f'{p.qname} polls on ' + '; '.join(f'local "{n}" bound once before the loop to {d}' for _l, n, d in stale) + ': later changes of the live state are never seen',
+            )
             # events: clear own, set every weaker, touch nothing stronger
             r.instance()
             ops = _event_ops(w, prog)
@@ -298,6 +311,46 @@ def rule2(ctx, rep):
             'sets all three events and fires update_trigger once',
             f'wait_for_nothing performs {ops} and fires update_trigger {len(trig)} time(s); expected: cancel all waits, fire once',
         )
+
+
+def _rebound(prog, sym):
+    """is the module attribute `sym` assigned anywhere outside its module's top level?"""
+    mod, _, name = sym.rpartition('.')
+    for fn in prog.funcs.values():
+        glob = {n for g in fn.own_nodes() if isinstance(g, ast.Global) for n in g.names}
+        for s in fn.own_nodes():
+            tg = []
+            if isinstance(s, ast.Assign):
+                tg = s.targets
+            elif isinstance(s, (ast.AugAssign, ast.AnnAssign)):
+                tg = [s.target]
+            for t in tg:
+                if isinstance(t, ast.Attribute) and t.attr == name and prog.resolve_in(t, fn) == sym:
+                    return True
+                if isinstance(t, ast.Name) and t.id == name and t.id in glob and fn.module.name == mod:
+                    return True
+    return False
+
+
+def _stale_locals(prog, p):
+    """[(loop, local name, description)] for locals read by a polling loop's test that are bound once, before the loop,
+    to a call result or to a module attribute that is rebound elsewhere"""
+    out = []
+    for lp in [n for n in p.own_nodes() if isinstance(n, ast.While)]:
+        inside = {id(x) for b in lp.body + lp.orelse for x in ast.walk(b)}
+        for nm in {x.id for x in ast.walk(lp.test) if isinstance(x, ast.Name) and isinstance(x.ctx, ast.Load)}:
+            defs = [s for s in p.own_nodes() if isinstance(s, ast.Assign) and any(isinstance(t, ast.Name) and t.id == nm for t in s.targets)]
+            if not defs or any(id(s) in inside for s in defs):
+                continue
+            for s in defs:
+                v = s.value
+                if isinstance(v, ast.Call):
+                    out.append((lp, nm, f'the call result {norm(v)}'))
+                elif isinstance(v, (ast.Attribute, ast.Name)):
+                    sym = prog.resolve_in(v, p)
+                    if sym and _rebound(prog, sym):
+                        out.append((lp, nm, f'{sym}, which is rebound elsewhere'))
+    return out
 
 
 class _Done(Flow):
@@ -428,8 +481,8 @@ def rule5(ctx, rep):
     prog = ctx.prog
     with rep.rule(
         'R-C12-5',
-        'exactly once per cycle: the updating -> loading edge runs reset, which cancels all waits and forgets the priority',
-        floor=2,
+        'exactly once per cycle: the updating -> loading edge (and nothing else) runs reset, which cancels all waits and forgets the priority; every submission reaches the priority merge',
+        floor=4,
         breaks='a stale priority / armed wait survives the reload and fires a second update',
     ) as r:
         edges = edges_of(prog)
@@ -441,6 +494,42 @@ def rule5(ctx, rep):
             f'pl/state.dot:{e[0].line if e else 0}',
             'before=reset',
             f'the updating -> loading edge has before={e[0].get("before") if e else None}, expected reset',
+        )
+        # reset is reached only from the constructor and that edge (added after seeded change C12-4: the submit front end
+        # called fsm.reset() before gitting, so a second submission forgot the priority of the one already waiting)
+        r.instance()
+        callers = sorted({e.src.qname for e in ctx.cg.callers(FSM + '.reset')} - {FSM + '.__init__'})
+        callers = [c for c in callers if c in prog.funcs]
+        r.check(
+            not callers,
+            f'{FSM}.reset:only-on-reload-edge',
+            where(prog.func(callers[0])) if callers else where(prog.func(FSM + '.reset')),
+            'FSM.reset is called only by FSM.__init__ and the updating -> loading edge',
+            f'FSM.reset is also called from {callers}: the priority and armed wait of a submission that is still waiting are forgotten outside a reload',
+        )
+        # the documented fallback for an unknown priority text is reachable: Priority(<text>) raises ValueError
+        s_ = prog.nfunc(FSM + '.set_submit_info')
+        rep.analysed(s_)
+        r.instance()
+        conv = [c for c in s_.calls() if prog.resolve_in(c.func, s_) == PRI]
+        if not conv:
+            raise AnalysisError('FSM.set_submit_info no longer converts its argument with Priority(...)')
+        okc = True
+        for c in conv:
+            trys = [t for t in s_.own_nodes() if isinstance(t, ast.Try) and any(x is c for b in t.body for x in ast.walk(b))]
+            caught = False
+            for t in trys:
+                for h in t.handlers:
+                    names = [] if h.type is None else [norm(x) for x in (h.type.elts if isinstance(h.type, ast.Tuple) else [h.type])]
+                    if h.type is None or any(n.split('.')[-1] in ('ValueError', 'Exception', 'BaseException') for n in names):
+                        caught = True
+            okc = okc and caught
+        r.check(
+            okc,
+            f'{FSM}.set_submit_info:unknown-priority-falls-back',
+            where(s_, conv[0]),
+            'Priority(<text>) is inside a try whose handler catches ValueError (bare / Exception / ValueError)',
+            'an unknown priority text makes Priority(<text>) raise ValueError past set_submit_info: the accepted submission never reaches the crossroads',
         )
         f = prog.nfunc(FSM + '.reset')
         rep.analysed(f)
@@ -537,6 +626,11 @@ VARIANTS = [
     V('reset dropped from refresh edge', 'B', 'pl/state.dot', None, 'before=reset,', '', 'R-C12-5'),
     V('reset keeps priority', 'B', 'pl/state.py', 'FSM.reset', 'self.priority = None', 'pass', 'R-C12-5'),
     V('step_1 without activity test', 'B', 'fe/api/submit.py', 'Process.step_1', 'if not dawgie.context.fsm.is_pipeline_active():', 'if False:', 'R-C12-6'),
+    V('todo poller watches a snapshot of the queue', 'B', 'pl/state.py', 'FSM.is_todo_done', 'while dawgie.pl.schedule.que and self.waiting_on_todo():', 'que = dawgie.pl.schedule.que\n        while que and self.waiting_on_todo():', 'R-C12-2'),
+    V('crew poller snapshot of a call', 'B', 'pl/state.py', 'FSM.is_crew_done', 'while', 'snapshot = len(dawgie.pl.farm._busy)\n        while snapshot and', 'R-C12-2'),
+    V('fallback handler narrowed to KeyError', 'B', 'pl/state.py', 'FSM.set_submit_info', 'except:', 'except KeyError:', 'R-C12-5'),
+    V('fallback handler narrowed to ValueError', 'N', 'pl/state.py', 'FSM.set_submit_info', 'except:', 'except ValueError:', None),
+    V('front end resets before gitting', 'B', 'fe/api/submit.py', 'Process.step_1', 'dawgie.context.fsm.gitting_trigger()', 'dawgie.context.fsm.reset()\n        dawgie.context.fsm.gitting_trigger()', 'R-C12-5'),
     V('crossroads with inverted first test', 'N', 'pl/state.py', 'FSM.submit_crossroads', 'if self.priority is None:\n                pass\n            elif', 'if', None),
     V('done with early return', 'N', 'pl/state.py', 'FSM.wait_for_crew', 'if self.waiting_on_crew():\n                self.update_trigger()\n                pass', 'if not self.waiting_on_crew():\n                return\n            self.update_trigger()', None),
 ]
